@@ -73,6 +73,24 @@ Theorem C13_edges_complete_self : forall A apropos fuel (ms : list (message A)) 
   In (i, o) ps.
 Proof. exact edges_complete_self. Qed.
 
+(* "... including files where a depended-on port is itself absent": a reference that passes
+   through ports WITHOUT a line - k refers to u (by an entry of its own, a parent's or a "self:"
+   port's metadata), u has no line and refers on, ... up to t, which has one - makes k wait for t
+   (the recursive call of scan_deps).  [reaches] is the chain, Save/TopoEdges.v *)
+Theorem C13_edges_complete_through : forall A apropos fuel (ms : list (message A)) ps k o t i,
+  pushes A apropos fuel ms = Some ps ->
+  In k (map_keys A ms) -> index_of A k ms = Some o ->
+  reaches apropos (map_keys A ms) k k t -> index_of A t ms = Some i ->
+  In (i, o) ps.
+Proof. exact edges_complete_through. Qed.
+
+Theorem C13_edges_through_nonvacuous :
+  let ms := [([47; 97]%Z, tt); ([47; 99]%Z, tt)] in
+  reaches ex_thr_apropos (map_keys unit ms) [47; 97]%Z [47; 97]%Z [47; 99]%Z /\
+  has_key (map_keys unit ms) [47; 98]%Z = false /\
+  pushes unit ex_thr_apropos 5 ms = Some [(1%nat, 0%nat)].
+Proof. exact edges_through_example. Qed.
+
 (* The same for ANY message semantics (generic in [apply]): two files with the same lines
    (distinct addresses, acyclic edges) are handed out in orders that give the
    same final state and the same count, for every initial state.
